@@ -68,7 +68,7 @@ def run(chk, tier, jobs, deadline):
         ctl_cfgs = [("tp=tcp,target=a,c0=r:ga,rel=0,mon=1", 1), ("tp=tcp,target=srv,c0=x:ag,c1=r:t,rel=0,mon=1", 1),
                     ("tp=ux,target=b,big=1,c0=r:g,c1=r:k,c2=r:x,rel=99,mon=1", 1), ("tp=tcp,target=a,c0=r:g,c1=r:m,c2=x:g,rel=3,mon=1", 0)]
         for params, bound in ctl_cfgs:
-            res = harnesses.explore(exe, params, bound if q else bound + 1, 120, jobs=jobs, env=env)
+            res = harnesses.explore(exe, params, bound if q else bound + 1, 120 if q else 900, jobs=jobs, env=env)
             harnesses.merge_into(chk, res, PREFIXES, params)
             for k in ("states", "transitions", "executions"):
                 merged[k] += res.get(k, 0)
@@ -76,7 +76,8 @@ def run(chk, tier, jobs, deadline):
             merged["evaluations"] += res.get("executions", 0)
             merged["configurations"] += 1
             merged["per_configuration"].append(dict(params=params, bound=bound, build="plain", harness="h_ctl",
-                                                    executions=res.get("executions"), completed_bound=res.get("completed_bound")))
+                                                    executions=res.get("executions"), completed_bound=res.get("completed_bound"),
+                                                    explored_bound=bound if q else bound + 1))
             if res.get("completed_bound", -1) < (bound if q else bound + 1):
                 merged["exhaustive"] = False
     finally:
